@@ -16,7 +16,7 @@ PROPERTY_MODULES = {
     "C18": ["mcmc", "state"],
     "C09": ["mcmc", "core_gfi", "combinators", "choicemap", "selection"],
     "C06": ["seed", "extra"],
-    "C07": ["seed", "extra"],
+    "C07": ["seed", "extra", "pjax_vmap"],
     "C01": ["core_gfi", "combinators", "lemmas", "choicemap"],
     "C02": ["core_gfi", "combinators", "lemmas", "pjax_vmap"],
     "C03": ["core_gfi", "combinators", "lemmas", "choicemap"],
